@@ -445,3 +445,78 @@ func init() {
 			return &RMulti{msg, causes}
 		})
 }
+
+// UWrapBothFmt: wrapper that implements FormatError and
+// SafeFormatError at once (the library documents that SafeFormatError
+// takes precedence); Error() delegates to the formatter.
+type UWrapBothFmt struct {
+	SafePart, Msg string
+	Inner         error
+}
+
+func (e *UWrapBothFmt) Error() string                 { return fmt.Sprint(errbase.Formattable(e)) }
+func (e *UWrapBothFmt) Unwrap() error                 { return e.Inner }
+func (e *UWrapBothFmt) Format(s fmt.State, verb rune) { errbase.FormatError(e, s, verb) }
+func (e *UWrapBothFmt) FormatError(p errbase.Printer) error {
+	p.Printf("%s %s", e.SafePart, e.Msg)
+	return e.Inner
+}
+func (e *UWrapBothFmt) SafeFormatError(p errbase.Printer) error {
+	p.Printf("%s %s", safeStr(e.SafePart), e.Msg)
+	return e.Inner
+}
+
+// UWrapStackDetails: wrapper that records a pkg/errors-style stack
+// trace AND reports safe details of its own.
+type UWrapStackDetails struct {
+	Msg, Safe string
+	Inner     error
+	St        errbase.StackTrace
+}
+
+func (e *UWrapStackDetails) Error() string                  { return e.Msg + ": " + e.Inner.Error() }
+func (e *UWrapStackDetails) Unwrap() error                  { return e.Inner }
+func (e *UWrapStackDetails) StackTrace() errbase.StackTrace { return e.St }
+func (e *UWrapStackDetails) SafeDetails() []string          { return []string{e.Safe} }
+
+// ZeroA, ZeroB: two different error types without fields. Pointers to
+// zero-size values may share one address; they are still different
+// errors.
+type ZeroA struct{}
+type ZeroB struct{}
+
+func (*ZeroA) Error() string { return "zero-a" }
+func (*ZeroB) Error() string { return "zero-b" }
+
+// Coded is a named struct type; CodedAnon builds a value of the
+// unnamed struct type with the same underlying type (assignable to
+// Coded, so the standard library's As finds it with a *Coded target).
+type Coded struct {
+	error
+	Code int
+}
+
+func CodedAnon(inner error, code int) error {
+	return struct {
+		error
+		Code int
+	}{inner, code}
+}
+
+// UMultiHoles: unregistered multi-cause type whose list of causes has
+// nil entries (a per-shard result slice).
+type UMultiHoles struct {
+	Msg    string
+	Causes []error // with nil holes
+}
+
+func (e *UMultiHoles) Error() string {
+	s := e.Msg
+	for _, c := range e.Causes {
+		if c != nil {
+			s += "; " + c.Error()
+		}
+	}
+	return s
+}
+func (e *UMultiHoles) Unwrap() []error { return e.Causes }
